@@ -4,7 +4,9 @@ import MosnVerif.Model.FilterSpec
 Driver of C14.  Case line (harness/c14):
 
   C14 ch <recv chain> <send chain> route=<r,…> host=<0|1,…> pool=<ok|overflow|connfail>
-         oneway=<0|1> body=<0|1> trl=<0|1> up=<r<code>:<data>:<trailers> | reset | term<code>>  =>  <tokens…>
+         oneway=<0|1> body=<0|1> trl=<0|1> up=<r<code>:<data>:<trailers> | reset | term<code>>
+         [retry=<retry_on 0|1>:<num_retries>:<code.code…|->]  =>  <tokens…>
+  retry        present: the route carries that retry policy and proxy_disable_retry is NOT set; absent: retries disabled
 
   recv chain   `-` or filters separated by `;`, each `<b|r|c>:<verdict>/<verdict>/…` (script; empty = always Continue);
                verdict `<act>~<status>`: act `n` | `h<code>` | `hb<code>` (hijack with body) | `d` | `t<code>`;
@@ -87,6 +89,17 @@ def parseUp (s : String) : Option UpEvent :=
     | _ => none
   else none
 
+def parsePol (toks : List String) : Option RetryPol :=
+  match kv "retry" toks with
+  | none => some {}
+  | some v =>
+    match v.splitOn ":" with
+    | [on, n, codes] => do
+      let n ← n.toNat?
+      let cs ← if codes == "-" then some [] else (codes.splitOn ".").mapM String.toNat?
+      pure { disabled := false, retryOn := on == "1", codes := cs, numRetries := n }
+    | _ => none
+
 def parseEnv (toks : List String) : Option Env := do
   let routes ← ((← kv "route" toks).splitOn ",").mapM parseRoute
   let hosts := ((← kv "host" toks).splitOn ",").map (· == "1")
@@ -94,8 +107,13 @@ def parseEnv (toks : List String) : Option Env := do
   let up ← parseUp (← kv "up" toks)
   -- upstreamRequest.OnFailure maps the pool failure to a reset reason; the harness resets with StreamRemoteReset
   let reason := if pool == "overflow" then "StreamOverflow" else if pool == "connfail" then "StreamConnectionFailed" else "StreamRemoteReset"
+  -- the value of that types.StreamResetReason constant (what doRetryCheck compares with), from the regenerated constants
+  let reasonVal := if pool == "overflow" then Gen.RetryState.streamOverflow
+    else if pool == "connfail" then Gen.RetryState.streamConnectionFailed else Gen.RetryState.streamRemoteReset
+  let pol ← parsePol toks
   pure { route := seqFn .none routes, host := seqFn false hosts, poolFail := pool != "ok",
          noRouteCode := RouterUnavailableCode, noHostCode := NoHealthUpstreamCode, resetCode := reasonCode reason,
+         resetReason := reasonVal, pol := pol,
          oneway := (← kv "oneway" toks) == "1", reqData := (← kv "body" toks) == "1",
          reqTrailers := (← kv "trl" toks) == "1", up := up }
 
@@ -124,7 +142,9 @@ def chain (recv send : String) (envToks impl : List String) : String :=
     let c : Cfg := ⟨r, sd, env⟩
     let fin := final c
     let model := (flat fin.trace).map Obs.raw
-    let modelToks := model.map showRaw ++ [if fin.cleaned then "done=1" else "done=0"]
+    -- a run the model hands to the retry path (the request is sent upstream again) carries the marker `retried`: the
+    -- harness generates no such case, an implementation line never has the token
+    let modelToks := model.map showRaw ++ (if fin.retried then ["retried"] else []) ++ [if fin.cleaned then "done=1" else "done=0"]
     let implToks := if impl == ["-"] then [] else impl
     let agree := modelToks == implToks
     -- the property predicate on the implementation's tokens (independent of the model run)
